@@ -432,8 +432,10 @@ fn gen_multi(seed: u64, idx: u64) -> MultiHistory {
     for i in 0..total {
         let t = i % nthreads;
         let mut op = gen_op(&mut r, &nodes, &mut fresh, false);
-        if matches!(op, Op::Remove(_)) {
-            op = Op::IncRef(r.below(NPATH as u64) as usize, r.below(NPATH as u64) as usize);
+        // callers also remove modules and rename them onto never-used names: the reference graph
+        // mirrors dangling edges, so any interleaving of these has a defined sequential meaning
+        if r.chance(0.06) && !fresh.is_empty() {
+            op = Op::Rename(r.below(NPATH as u64) as usize, fresh.pop().unwrap());
         }
         match &op {
             Op::IncRef(rr, d) => {
